@@ -51,8 +51,16 @@ ImplBudget(p) == IF "BudgetOffByOne" \in Defects THEN Budget(p) + 1
                  ELSE IF "BudgetIsNumRetries" \in Defects THEN p.n ELSE Budget(p)
 
 VARIABLES pol, script, att, rem, st, last, hosts, reply,
-          applied   \* how often the route's request-side actions have been applied to the request the attempts carry
-vars == <<pol, script, att, rem, st, last, hosts, reply, applied>>
+          applied,  \* how often the route's request-side actions have been applied to the request the attempts carry
+          clock,    \* time since the request was sent upstream for the first time, in units of the per-try timeout
+          deadline  \* when the global timer fires
+vars == <<pol, script, att, rem, st, last, hosts, reply, applied, clock, deadline>>
+
+(* Time, as coarse as the statement needs it: the effective (global) timeout bounds the WHOLE request, retries included.
+   A hanging attempt ends after TUnits by its per-try timeout, or when the global timer fires, whichever is first;
+   every other outcome is immediate. The global timer is armed once, when the request is first sent. *)
+TUnits == 1
+GUnits == 3
 
 NHosts == 2
 Outcome(i) == IF i <= Len(script) THEN script[i] ELSE script[Len(script)]
@@ -63,6 +71,7 @@ Scripts(p) == UNION { { s \in [1..n -> Outcomes] : \A i \in 1..(n - 1) : Retryab
 
 Init == /\ pol \in Policies /\ script \in Scripts(pol)
         /\ att = 0 /\ rem = ImplBudget(pol) /\ st = "idle" /\ last = "none" /\ hosts = <<>> /\ reply = 0 /\ applied = 0
+        /\ clock = 0 /\ deadline = GUnits
 
 (* an attempt is handed to a freshly chosen host: with round-robin selection re-run, never the host of the
    attempt before (NHosts > 1) *)
@@ -73,22 +82,25 @@ Attempt == /\ st = "idle"
            /\ att' = att + 1 /\ st' = "wait" /\ last' = "none"
            (* receiveHeaders finalizes the request before the first attempt; a retry sends the same request again *)
            /\ applied' = IF att = 0 THEN 1 ELSE IF "FinalizeOnRetry" \in Defects THEN applied + 1 ELSE applied
-           /\ UNCHANGED <<pol, script, rem, reply>>
+           /\ deadline' = IF att > 0 /\ "GlobalTimerRestartsOnRetry" \in Defects THEN clock + GUnits ELSE deadline
+           /\ UNCHANGED <<pol, script, rem, reply, clock>>
 
 (* the attempt ends; retry decision *)
 Ends == /\ st = "wait"
-        /\ LET o == Outcome(att) IN
+        /\ LET o0 == Outcome(att)
+               o  == IF o0 = "ptmo" /\ clock + TUnits >= deadline THEN "gtmo" ELSE o0 IN
              /\ last' = o
+             /\ clock' = IF o = "ptmo" THEN clock + TUnits ELSE IF o = "gtmo" /\ deadline > clock THEN deadline ELSE clock
              /\ IF rem > 0 /\ ImplRetryable(pol, o)
                 THEN st' = "idle" /\ rem' = rem - 1 /\ reply' = reply
                 ELSE st' = "replied" /\ rem' = rem /\ reply' = IF o \in Responses THEN Code(o) ELSE 599
-        /\ UNCHANGED <<pol, script, att, hosts, applied>>
+        /\ UNCHANGED <<pol, script, att, hosts, applied, deadline>>
 
 (* a response that was passed on may still break: the reply has started, nothing is retried *)
 BreaksAfterStart == /\ st = "replied" /\ last \in Responses
                     /\ IF "RetryAfterResponse" \in Defects /\ rem > 0 THEN st' = "idle" /\ rem' = rem - 1 ELSE st' = "done" /\ rem' = rem
-                    /\ UNCHANGED <<pol, script, att, last, hosts, reply, applied>>
-Finish == st = "replied" /\ st' = "done" /\ UNCHANGED <<pol, script, att, rem, last, hosts, reply, applied>>
+                    /\ UNCHANGED <<pol, script, att, last, hosts, reply, applied, clock, deadline>>
+Finish == st = "replied" /\ st' = "done" /\ UNCHANGED <<pol, script, att, rem, last, hosts, reply, applied, clock, deadline>>
 
 Next == Attempt \/ Ends \/ BreaksAfterStart \/ Finish
 Spec == Init /\ [][Next]_vars
@@ -102,6 +114,8 @@ FreshHost         == \A i \in 1..(Len(hosts) - 1) : hosts[i] # hosts[i + 1]
 RetryMade         == (st \in {"replied", "done"} /\ att < 1 + Budget(pol)) => ~Retryable(pol, last)
 (* every attempt, first or retried, carries the request with the actions applied exactly once *)
 ActionsAppliedOnce == att >= 1 => applied = 1
+(* the effective timeout bounds the whole request: no attempt starts after it, the reply has started by then *)
+WithinGlobalTimeout == clock <= GUnits
 ReplyIsLast       == st \in {"replied", "done"} => (IF last \in Responses THEN reply = Code(last) ELSE reply >= 500)
 
 (* the expected number of attempts of a behaviour, used by the case stream *)
